@@ -58,6 +58,11 @@ PrefixInv ==
   (fn = FnBU /\ Just("u")) =>
      \A u \in 1..(pc - 2) : SameFrac(reg.out[1][u], ClustBU(N, W)[u])
 
+(* ---- the neighbour-pair enumeration (Clustering Part 1b, used by Trace_Clustering for   *)
+(* large networks) is the same function as the node-triple enumeration                     *)
+NbrEnumerationEqualsDefinition ==
+  (Done /\ fn # FnTWDcoded) => (DefN(fn, N, W, D) = def /\ NbrEnumerationAgrees(fn, N, W, D))
+
 (* ---- the two model-level theorems of the property statement ------------------------ *)
 InUnit(fr, signed) == fr[2] > 0 /\ fr[1] <= fr[2] /\ (IF signed THEN -fr[2] <= fr[1] ELSE fr[1] >= 0)
 InUnitInterval ==
